@@ -50,8 +50,26 @@ var (
 	ErrUnavailable = status.Error(codes.Unavailable, "simulated node unreachable")
 )
 
+// The connection objects the code under test dials are real (never connected: the fake clients only use them as
+// handles). A world that is abandoned - crashed servers, killed threads - never closes them, and each keeps two
+// goroutines and a trace log alive: over a 25-minute search that was gigabytes. Reset closes what the previous
+// execution left open.
+var (
+	connsMu gosync.Mutex
+	conns   = map[*grpc.ClientConn]struct{}{}
+)
+
+func init() { grpc.EnableTracing = false }
+
 // Reset clears registry, interceptor and counters (per execution).
 func Reset() {
+	connsMu.Lock()
+	old := conns
+	conns = map[*grpc.ClientConn]struct{}{}
+	connsMu.Unlock()
+	for c := range old {
+		c.Close()
+	}
 	Registry = map[string]*Node{}
 	Intercept = nil
 	Calls = map[string]int{}
@@ -67,6 +85,9 @@ type tgt struct {
 
 func target(cc grpc.ClientConnInterface) tgt {
 	if c, ok := cc.(*grpc.ClientConn); ok && c != nil {
+		connsMu.Lock()
+		conns[c] = struct{}{}
+		connsMu.Unlock()
 		return tgt{c.Target(), c}
 	}
 	if t, ok := cc.(interface{ Target() string }); ok {
